@@ -24,7 +24,7 @@ META = dict(
     bounds=dict(quick="point order q in {5, 13, n_secp112r1}; declared order None / q; generator flag "
                       "on/off; scalars k in [-2^8, 2^10]; _naf for k in [0, 2^12); mul_add with "
                       "a, b in [-16, 2^8], Q = t*P for t in {1, q-1, 2} and Q = infinity; glue: "
-                      "p = 5, k in [-3, ord+2] and 2*ord+3, four mul_add pairs",
+                      "p = 5, k in {-2..3, ord-1, ord, ord+1, 2*ord+3}, six mul_add pairs",
                 thorough="q also 7, 251; declared order 3q; k in [-2^12, 2^14]; a, b to 2^10; _naf to "
                          "2^16; glue also p = 7, k in [-3, 2*ord+3]"),
     stubs=["_add / _double on abstract triples: T(i) + T(j) = T(i+j), 2 T(i) = T(2i); x(), y(), "
@@ -449,7 +449,7 @@ def jobs(tier, seed):
         N = len(eg.curve_points(p, ab[0], ab[1])) + 1
         assert eg._is_prime(N)
         for k in list(range(-3, 2 * N + 4)):
-            if tier == "quick" and k > N + 2 and k != 2 * N + 3:
+            if tier == "quick" and k not in (-2, -1, 0, 1, 2, 3, N - 1, N, N + 1, 2 * N + 3):
                 continue
             js.append(Job("glue/p%d/mul/k%d" % (p, k), "harness.c07:glue", p=p, ab=ab, what="mul", k=k))
             js.append(Job("glue/p%d/mulorder/k%d" % (p, k), "harness.c07:glue", p=p, ab=ab, what="mul_order", k=k))
